@@ -203,6 +203,9 @@ func content(root string, f int) int {
 	if string(b) == "v1" {
 		return 1
 	}
+	if len(b) == 0 {
+		return 3 // an empty file is a file like any other (event w.<f>.3)
+	}
 	return 2
 }
 
@@ -770,7 +773,11 @@ func workCase(c string) string {
 			if f < 0 || f >= len(files) {
 				return "BAD-CASE"
 			}
-			_ = os.WriteFile(filepath.Join(proj, files[f]), []byte("v"+p[2]), 0o644)
+			data := []byte("v" + p[2])
+			if p[2] == "3" {
+				data = nil // w.<f>.3 writes an empty file
+			}
+			_ = os.WriteFile(filepath.Join(proj, files[f]), data, 0o644)
 		case "d":
 			if len(p) != 2 {
 				return "BAD-CASE"
@@ -958,7 +965,7 @@ var alpha = map[int]alphabet{
 	2: {[]string{"c", "w.0.1", "w.0.2", "w.1.2", "f.B"}, runsOf([]string{"A", "B", "AB"})},
 	6: {[]string{"c", "w.0.2", "w.0.1", "w.3.1", "d.3", "f.A"}, runsOf([]string{"A", "B"})},
 	7: {[]string{"w.0.1", "d.0", "w.4.1", "d.4", "w.0.2"}, runsOf([]string{"A"})},
-	8: {[]string{"d.2", "w.2.1", "w.2.2", "f.A"}, runsOf([]string{"A"})},
+	8: {[]string{"d.2", "w.2.1", "w.2.3", "w.3.3", "d.3"}, runsOf([]string{"A"})},
 }
 
 // all histories of exactly `depth` events whose last event is a run (their prefixes are checked on the way)
@@ -1106,7 +1113,7 @@ func randomHistoriesMode(w *bufio.Writer, rng *rand.Rand, count int, maxDepth in
 				if rng.Intn(4) == 0 {
 					ev = append(ev, fmt.Sprintf("d.%d", f))
 				} else {
-					ev = append(ev, fmt.Sprintf("w.%d.%d", f, 1+rng.Intn(2)))
+					ev = append(ev, fmt.Sprintf("w.%d.%d", f, 1+rng.Intn(3)))
 				}
 			case x == 3:
 				if rng.Intn(3) == 0 {
